@@ -441,3 +441,73 @@ package lfs
 //@   assumed
 //@   props C20
 //@   modifies fresh
+
+// C13, pointer half: which files fsck --pointers looks at and how it classes
+// them.  Every regular file of the tree is a candidate, whatever its size; a
+// candidate of 1024 bytes or more is recorded as "not a pointer" (nil), a
+// smaller one as whatever the pointer scanner made of it; every recorded path
+// the attribute filter selects is reported exactly once - as a pointer, or as
+// a pointer-scan error when it is not one.
+//@ func runScanTreeForPointers$1
+//@   props C13
+//@   pure
+//@   ensures result == (t != nil && (t.Mode == 0100644 || t.Mode == 0100755))
+//@ func runScanTreeForPointers
+//@   props C13
+//@   requires @inv cb != nil
+//@   loop 1 iter lastallow() ==> cbcount() == iter(cbcount()) + 1 && (p != nil ==> cblast() == p && cblasterr() == nil) && (p == nil ==> cblast() == nil && cblasterr() != nil && err_pointerscan(cblasterr()))
+//@   loop 1 iter !lastallow() ==> cbcount() == iter(cbcount())
+//@ func catFileBatchTreeForPointers
+//@   props C13
+//@   requires @inv treeblobs != nil
+//@   loop 1 iter path_base2(t.Filename) != ".gitattributes" && t.Size >= 1024 ==> has(pointers, t.Filename) && pointers[t.Filename] == nil
+//@   loop 1 iter path_base2(t.Filename) != ".gitattributes" ==> has(pointers, t.Filename)
+//@   dead return3
+//@   dead return4
+//@ func lsTreeBlobs
+//@   assumed
+//@   props C13
+//@   modifies fresh
+//@ func NewPointerScanner
+//@   assumed
+//@   props C13
+//@   modifies fresh
+//@   ensures result1 == nil ==> result0 != nil
+//@ func (*PointerScanner).Scan
+//@   assumed
+//@   props C13
+//@   modifies fresh, fields s
+//@ func (*PointerScanner).Pointer
+//@   assumed
+//@   props C13
+//@   noeffect
+//@ func (*PointerScanner).Err
+//@   assumed
+//@   props C13
+//@   noeffect
+//@ func github.com/git-lfs/git-lfs/v3/git.NewObjectScanner
+//@   assumed
+//@   props C13
+//@   modifies fresh
+//@   ensures result1 == nil ==> result0 != nil
+//@ func (*github.com/git-lfs/git-lfs/v3/git.ObjectScanner).Scan
+//@   assumed
+//@   props C13
+//@   modifies fresh
+//@ func (*github.com/git-lfs/git-lfs/v3/git.ObjectScanner).Contents
+//@   assumed
+//@   props C13
+//@   noeffect
+//@ func (*github.com/git-lfs/git-lfs/v3/git.ObjectScanner).Err
+//@   assumed
+//@   props C13
+//@   noeffect
+//@ func github.com/git-lfs/git-lfs/v3/git.AttrPathsFromReader
+//@   assumed
+//@   props C13
+//@   modifies fresh
+//@ func github.com/git-lfs/git-lfs/v3/errors.NewPointerScanError
+//@   assumed
+//@   props C13
+//@   pure
+//@   ensures result != nil && err_pointerscan(result)
